@@ -140,6 +140,13 @@ impl Http3Codec {
                 self.notify_writable_streams(streams);
                 Ok(None)
             }
+            QuicSocketEvent::Finished(stream_id) => {
+                // Only the request side has ended (e.g. a request without a body, or a
+                // half-closed tunnel): the response can still be sent. Wake the reader up
+                // so that it observes the end of the stream.
+                let _ = self.on_stream_readable(stream_id);
+                Ok(None)
+            }
             QuicSocketEvent::Close(stream_id) => {
                 let _ = self.on_stream_shutdown(stream_id, None);
                 Ok(None)
